@@ -21,6 +21,7 @@ type execExtra struct {
 	pendingGuardHeaps []string
 	rangeKeys         map[*ssa.Range]string
 	havocAll          bool
+	hypMode           bool
 	writtenRefs       map[string][]*Node
 	writtenWhole      map[string]bool
 	lastRegionStart   *State
@@ -152,7 +153,7 @@ func (e *Exec) runSiteSpecs(s *State, ins ssa.Instruction, specs []*SiteSpec, be
 			extra["stored"] = specVar{e.val(s, st.Val), st.Val.Type()}
 		}
 		for _, a := range ss.Assume {
-			s.assume(e.evalClauseCur(a, s, e.entry, extra))
+			s.assume(e.asHyp(func() *Node { return e.evalClauseCur(a, s, e.entry, extra) }))
 		}
 		if e.quiet == 0 {
 			e.counters["site:"+ss.Label]++
